@@ -61,7 +61,6 @@ PRELUDE = {
 # blocks that need another block first
 NEEDS = {'NT': ['collections'], 'IE': ['enum'], 'SE': ['enum'], 'SE2': ['enum'], 'Fl': ['enum'], 'En': ['enum'],
          'DateSub': ['datetime'], 'DTSub': ['datetime'], 'TZ5': ['datetime']}
-ORDER = list(PRELUDE)
 
 ZONES = ['UTC', 'America/New_York', 'Asia/Kolkata', 'Australia/Lord_Howe', 'Europe/London', 'Pacific/Kiritimati', 'Etc/GMT+12',
          'Asia/Tokyo', 'America/St_Johns']
@@ -147,10 +146,22 @@ class Case(object):
     self.tags = []
     self.nvar = 0
     self.heavy = False      # at most one recursive / deep / wide construct per case (they multiply each other's cost)
+    self.raises = None      # engine mode: the formula raises this exception expression instead of returning the value
 
   def var(self):
     self.nvar += 1
     return 'v%d' % self.nvar
+
+
+# engine mode: exceptions raised by the formula (the engine wraps them in RaisedException itself)
+RAISES = ["ValueError(S('m'))", "ValueError(SRepr('m'), 2)", "KeyError({1, 2}, b'x')", 'XExc()', "XExc('\\ud800')", 'BadExc()',
+          'StopIteration()', "type('Odd Name', (Exception,), {})('x')", "ValueError('x' * 3000)", 'ZeroDivisionError(I(5))',
+          "objtypes.InvalidTypedValue('Ref', 'abc')", "objtypes.CellError('T', 'A', 1, ValueError('inner'))", "UnicodeDecodeError('utf8', b'\\xff', 0, 1, 'bad')",
+          "OSError(2, 'No such file', 'f.txt')", "AssertionError([1, {2}])", 'KeyboardInterruptLike()' ]
+PRELUDE['KeyboardInterruptLike'] = 'class KeyboardInterruptLike(Exception):\n  args = None'
+
+
+ORDER = list(PRELUDE)
 
 
 def blocks_for(text):
@@ -171,11 +182,14 @@ def blocks_for(text):
 
 def body(case, indent=''):
   """Function/formula body computing the value."""
-  text = '\n'.join(case.stmts + [case.expr])
+  text = '\n'.join(case.stmts + [case.expr] + ([case.raises] if case.raises else []))
   lines = []
   for b in blocks_for(text):
     lines.extend(PRELUDE[b].split('\n'))
   lines.extend(case.stmts)
+  if case.raises:
+    # a formula must contain a return statement; the raise is taken for every existing row
+    lines.extend(['if rec.id:', '  raise ' + case.raises])
   lines.append('return ' + case.expr)
   return '\n'.join(indent + l for l in lines)
 
@@ -284,6 +298,9 @@ class Builder(object):
   def build(self):
     case = Case()
     case.expr = self.value(case)
+    if self.engine and self.R.random() < 0.12:
+      case.raises = self.R.choice(RAISES)
+      case.tags.append('raises')
     return case
 
 
